@@ -1308,3 +1308,7 @@ V('c01-question-not-appended', 'C01', 'C01.PRIMS', '_protocol/outgoing.py',
 V('c06-refresh-never-shortens', 'C06', 'C06.FLOORFLUSH', DNS,
   "        self.set_created_ttl(other.created, other.ttl)",
   "        if other.get_expiration_time(100) >= self.get_expiration_time(100):\n            self.set_created_ttl(other.created, other.ttl)", names=['reset_ttl'])
+V('c12-immediate-answer-leaves-parked-copy', 'C12', 'C12.WIRING', '_handlers/query_handler.py',
+  "            self.out_queue._remove_answers_from_queue(question_answers.mcast_now)\n            self.out_delay_queue._remove_answers_from_queue(question_answers.mcast_now)\n", "", names=['handle_assembled_query'])
+V('c12-immediate-answer-purges-one-queue-only', 'C12', 'C12.WIRING', '_handlers/query_handler.py',
+  "            self.out_delay_queue._remove_answers_from_queue(question_answers.mcast_now)\n", "", names=['handle_assembled_query'])
